@@ -28,22 +28,26 @@ var c12Versions = []struct {
 	id, src string
 	files   map[string]string // further files of the version, relative to the package directory p/
 }{
-	{id: "v1-base", src: "//go:build convergen\n\npackage p\n\n" + c12Types + "type Convergen interface {\n\tConv(*S) *D\n}\n"},
-	{id: "v2-field-renamed", src: "//go:build convergen\n\npackage p\n\n" + strings.ReplaceAll(c12Types, "\tB string\n}\n\ntype D", "\tBB string\n}\n\ntype D") + "type Convergen interface {\n\tConv(*S) *D\n}\n"},
-	{id: "v3-conv-only-in-stale-output", src: "//go:build convergen\n\npackage p\n\n" + c12Types + "type Convergen interface {\n\t// :conv Conv In\n\tWrap(*WS) *WD\n}\n"},
-	{id: "v4-rejected", src: "//go:build convergen\n\npackage p\n\n" + c12Types + "type Convergen interface {\n\t// :style sideways\n\tConv(*S) *D\n}\n"},
-	{id: "v5-second-interface", src: "//go:build convergen\n\npackage p\n\n" + c12Types + "type Convergen interface {\n\tConv(*S) *D\n}\n\n// :convergen\ntype Second interface {\n\t// :conv Conv In\n\tWrap(*WS) *WD\n}\n"},
+	{id: "v1-base", src: "//go:build convergen\n\npackage pkgdemo\n\n" + c12Types + "type Convergen interface {\n\tConv(*S) *D\n}\n"},
+	{id: "v2-field-renamed", src: "//go:build convergen\n\npackage pkgdemo\n\n" + strings.ReplaceAll(c12Types, "\tB string\n}\n\ntype D", "\tBB string\n}\n\ntype D") + "type Convergen interface {\n\tConv(*S) *D\n}\n"},
+	{id: "v3-conv-only-in-stale-output", src: "//go:build convergen\n\npackage pkgdemo\n\n" + c12Types + "type Convergen interface {\n\t// :conv Conv In\n\tWrap(*WS) *WD\n}\n"},
+	{id: "v4-rejected", src: "//go:build convergen\n\npackage pkgdemo\n\n" + c12Types + "type Convergen interface {\n\t// :style sideways\n\tConv(*S) *D\n}\n"},
+	{id: "v5-second-interface", src: "//go:build convergen\n\npackage pkgdemo\n\n" + c12Types + "type Convergen interface {\n\tConv(*S) *D\n}\n\n// :convergen\ntype Second interface {\n\t// :conv Conv In\n\tWrap(*WS) *WD\n}\n"},
 	// v6 / v7: the generated code auto-imports a package the setup file does not import (enums, reached through model.D);
 	// between v6 and v7 that package moves, so v6's stale output carries an import path that no longer exists
 	{id: "v6-autoimport-old-path", src: c12AutoImportSetup, files: map[string]string{
 		"model/model.go":         "package model\n\nimport \"example.com/h/p/oldpath/enums\"\n\ntype D struct{ X enums.Status }\n",
 		"oldpath/enums/enums.go": "package enums\n\ntype Status int\n"}},
+	{id: "v8-conv-with-import", src: "//go:build convergen\n\npackage pkgdemo\n\nimport \"example.com/h/p/helper\"\n\ntype S struct{ A int }\n\ntype D struct{ A string }\n\ntype Convergen interface {\n\t// :conv helper.Itoa A\n\tConv(*S) *D\n}\n",
+		files: map[string]string{"helper/helper.go": "package helper\n\nfunc Itoa(i int) string { return \"i\" }\n"}},
+	{id: "v9-conv-import-dropped", src: "//go:build convergen\n\npackage pkgdemo\n\ntype S struct{ A int }\n\ntype D struct{ A string }\n\ntype Convergen interface {\n\t// :conv helper.Itoa A\n\tConv(*S) *D\n}\n",
+		files: map[string]string{"helper/helper.go": "package helper\n\nfunc Itoa(i int) string { return \"i\" }\n"}},
 	{id: "v7-autoimport-moved", src: c12AutoImportSetup, files: map[string]string{
 		"model/model.go": "package model\n\nimport \"example.com/h/p/enums\"\n\ntype D struct{ X enums.Status }\n",
 		"enums/enums.go": "package enums\n\ntype Status int\n"}},
 }
 
-const c12AutoImportSetup = "//go:build convergen\n\npackage p\n\nimport \"example.com/h/p/model\"\n\ntype S struct{ X int }\n\n// :typecast\ntype Convergen interface {\n\tConv(*S) *model.D\n}\n"
+const c12AutoImportSetup = "//go:build convergen\n\npackage pkgdemo\n\nimport \"example.com/h/p/model\"\n\ntype S struct{ X int }\n\n// :typecast\ntype Convergen interface {\n\tConv(*S) *model.D\n}\n"
 
 type c12Edge struct {
 	Exit           int
@@ -58,7 +62,7 @@ func (e *Env) c12Run(base, tag string, v int, out string, custom bool) c12Edge {
 	root := filepath.Join(base, tag)
 	defer os.RemoveAll(root)
 	// the tree is its own module so that import paths (which end up in the output) do not depend on where it lives
-	files := map[string]string{"p/setup.go": c12Versions[v].src, "p/other.go": "package p\n\nvar Other = 1\n"}
+	files := map[string]string{"p/setup.go": c12Versions[v].src, "p/other.go": "package pkgdemo\n\nvar Other = 1\n"}
 	if len(c12Versions[v].files) > 0 {
 		files["go.mod"] = "module example.com/h\n\ngo 1.19\n"
 	}
@@ -85,19 +89,21 @@ func (e *Env) c12Run(base, tag string, v int, out string, custom bool) c12Edge {
 
 func c12Corruptions(w string, others map[string]string) map[string]string {
 	m := map[string]string{
-		"empty":            "",
-		"header-only":      "// Code generated by github.com/reedom/convergen\n// DO NOT EDIT.\n",
-		"package-only":     "package p\n",
-		"unbalanced-brace": w + "\nfunc Broken() {\n",
-		"garbage-line":     strings.Replace(w, "package p\n", "package p\n\n%%% garbage $$$\n", 1),
-		"duplicated-func":  w + "\n" + funcsOf(w),
-		// (a file with another package clause is outside the property: "broken Go of the same package";
-		//  with a name that sorts first it changes which package `go list` sees in the directory)
-		"type-error":       w + "\nvar Bad int = \"s\"\n",
-		"redeclares-types": w + "\ntype S struct{ Z int }\n",
-		// (bytes that are not Go text at all - NUL bytes - are outside the property's three kinds of content;
-		//  `go list` itself cannot read such a package and then reports no imports)
-		"defines-sideways": w + "\nfunc sideways() {}\n",
+		"empty":                   "",
+		"header-only":             "// Code generated by github.com/reedom/convergen\n// DO NOT EDIT.\n",
+		"package-only":            "package pkgdemo\n",
+		"unbalanced-brace":        w + "\nfunc Broken() {\n",
+		"garbage-line":            strings.Replace(w, "package pkgdemo\n", "package pkgdemo\n\n%%% garbage $$$\n", 1),
+		"duplicated-func":         w + "\n" + funcsOf(w),
+		"wrong-package":           strings.Replace(w, "package pkgdemo\n", "package q\n", 1),
+		"binary-bytes":            "\x00\x01\x02\xff\xfe",
+		"license-prepended":       "// Copyright (c) someone\n// SPDX-License-Identifier: MIT\n\n" + w,
+		"first-bytes-overwritten": "XXXXXXXX" + w[min(8, len(w)):],
+		"header-removed":          strings.TrimPrefix(w, "// Code generated by github.com/reedom/convergen\n// DO NOT EDIT.\n\n"),
+		"hand-written":            "package pkgdemo\n\n// written by hand, no header\nfunc Conv() {}\n",
+		"type-error":              w + "\nvar Bad int = \"s\"\n",
+		"redeclares-types":        w + "\ntype S struct{ Z int }\n",
+		"defines-sideways":        w + "\nfunc sideways() {}\n",
 	}
 	for id, o := range others {
 		m["stale-"+id] = o
@@ -118,14 +124,14 @@ func init() {
 		th := e.Rep.Thorough()
 		base := filepath.Join(e.WS.Root, "hist")
 		_ = os.MkdirAll(base, 0o755)
-		versions := []int{0, 2, 3, 5, 6}
+		versions := []int{0, 2, 3, 5, 6, 7, 8}
 		customs := []bool{false}
 		if th {
-			versions = []int{0, 1, 2, 3, 4, 5, 6}
+			versions = []int{0, 1, 2, 3, 4, 5, 6, 7, 8}
 			customs = []bool{false, true}
 		}
-		e.Rep.Rule("explicit-state search over (setup version, bytes at the output path): versions v1 base, v2 field renamed, v3 :conv naming a function that exists only in v1's stale output, v4 rejected input, v5 second interface, v6/v7 an auto-imported package that moves between the versions; " +
-			"transitions Run, Edit(v'), Crash(k) for EVERY byte offset k of each version's output, Corrupt{empty, header only, package clause only, unbalanced brace, garbage line, duplicated func, type error, redeclared types, stale output of every other version}; " +
+		e.Rep.Rule("explicit-state search over (setup version, bytes at the output path): versions v1 base, v2 field renamed, v3 :conv naming a function that exists only in v1's stale output, v4 rejected input, v5 second interface, v6/v7 an auto-imported package that moves between the versions, v8/v9 a :conv whose package import is dropped from the setup file but lives on in the stale output; " +
+			"transitions Run, Edit(v'), Crash(k) for EVERY byte offset k of each version's output, Corrupt{empty, header only, package clause only, unbalanced brace, garbage line, duplicated func, wrong package clause, type error, redeclared types, NUL bytes, license prepended, first bytes overwritten, header removed, hand-written file, stale output of every other version}; " +
 			"default output path and (thorough) an -out path in the package directory; invariant on every Run edge: exit status, stdout, stderr and bytes afterwards equal those of the Run edge from (v, absent) (unchanged bytes for a rejected v); " +
 			"non-trivial = Run edge whose pre-state output differs from both absent and W(v)")
 		for _, custom := range customs {
@@ -198,7 +204,12 @@ func init() {
 			var jobs []job
 			for _, v := range versions {
 				for ci, c := range contents {
-					if len(c12Versions[v].files) > 0 && strings.HasPrefix(c.label, "Crash") && ci%24 != 0 {
+					if strings.HasPrefix(c12Versions[v].id, "v8") || strings.HasPrefix(c12Versions[v].id, "v9") {
+						// cheap versions: whole / stale / corrupt contents and every 8th crash point
+						if strings.HasPrefix(c.label, "Crash") && ci%8 != 0 {
+							continue
+						}
+					} else if len(c12Versions[v].files) > 0 && strings.HasPrefix(c.label, "Crash") && ci%24 != 0 {
 						// the auto-import versions cost seconds per run (goimports scans the module cache for the
 						// package it has to add): they get every whole/stale/corrupt content but only every 24th crash point
 						continue
